@@ -158,6 +158,10 @@ def run(ctx):
         report(fails)
         counts["consequence_ma"] += n
         ctx.case(("consequence-ma", kind))
+    fails, n = op.check_consequence_big_group(ctx.seed)
+    report(fails)
+    counts["consequence_ma"] += n
+    ctx.case(("consequence-ma", "big-group"))
     if op.INSENSITIVE and not ctx.violations:
         raise tlc.TLCError(f"vacuity guard: network outputs do not distinguish the observations in {op.INSENSITIVE}")
     ctx.extra["conformance_counts"] = counts
